@@ -20,7 +20,7 @@ def run(seed):
             return seed, owner, {"error": "patch failed"}
         res = {}
         for pid in (pids_all if ALL else [owner]):
-            r = subprocess.run([os.path.join(VERIF, "check"), pid, "--repo", tmp, "--no-evidence"], stdout=subprocess.PIPE, stderr=subprocess.STDOUT)
+            r = subprocess.run([os.path.join(VERIF, "check"), pid, "--repo", tmp, "--no-evidence", "--strict"], stdout=subprocess.PIPE, stderr=subprocess.STDOUT)
             out = r.stdout.decode()
             rules = sorted(set(l.split("rule ")[1].split(" ")[0] for l in out.splitlines() if l.strip().startswith("rule ")))
             res[pid] = {"rc": r.returncode, "rules": rules}
